@@ -54,10 +54,10 @@ static void prop_cycle(Tape &t, Ctx &c) {
     c.label(bucket(static_cast<double>(n), {13, 41, 101}, "n"));
     c.nontrivial = li.levels >= 2;
 
-    // ---- known finding F-emin (hierarchy): a vanishing filtered diagonal is inverted without a guard
+    // ---- degenerate emin aggregates (former finding F-emin, fixed in /repo by a58f297): labelled, asserted like every other case
     if (cfg.coars == EMIN) {
         std::string why = emin_degenerate(*amg, cfg.eps_strong);
-        if (!why.empty()) { c.label("emin:degenerate-aggregate"); c.desc << " | F-emin: " << why; if (c.known("F-emin")) return; }
+        if (!why.empty()) { c.label("emin:degenerate-aggregate"); c.desc << " | emin degenerate: " << why; }
     }
 
     // ---- B, history independence
